@@ -1298,7 +1298,13 @@ class Interp:
         # element invariants of sequence-valued accumulators: what is registered for the initial value
         # is assumed of the accumulator inside the step (induction hypothesis) and must be derivable
         # for the step's result (checked below), then holds of the fold
-        acc_facts = [lib.elem_facts_for(self, inits[k]) if kinds[k] != "term" else [] for k in range(len(carried))]
+        known_preds = [lib.MATCH_RECORD]  # (always a candidate: what selectors and queries yield)
+        for _, f in getattr(self, "elem_facts", []):
+            if f not in known_preds:
+                known_preds.append(f)
+        acc_facts = [[f for f in known_preds if lib.derives_elem_fact(self, inits[k], f)] if kinds[k] != "term" else [] for k in range(len(carried))]
+        if os.environ.get("PYVC_DEBUG_FOLD"):
+            print("[fold facts]", carried, kinds, [len(x) for x in acc_facts], [str(z3.simplify(i))[:120].replace("\n", " ") for i in inits], len(known_preds), file=sys.stderr)
         saved_elem_facts = list(getattr(self, "elem_facts", []))
         self.elem_facts = saved_elem_facts + [(accs[k], f) for k in range(len(carried)) for f in acc_facts[k]]
 
@@ -1351,7 +1357,8 @@ class Interp:
             return self.fold_loop(spec, target, body, frame, carried, idx, seq_only=frozenset(seq_only) | {e.args[0]})
         for a in alts:
             if a["exit"][0] != "next" or len(a["trace"]) != 1 or a["trace"][0][0] != "foldout":
-                raise Unsupported("fold step must be effect-free and end normally on every path")
+                what = a["exit"][0] if a["exit"][0] != "next" else "effects " + ",".join(str(x[0]) for x in a["trace"][:-1])
+                raise Unsupported(f"fold step must be effect-free and end normally on every path (carried {carried}: {what} {a['exit'][1] if len(a['exit']) > 1 else ''})"[:300])
         # an accumulator that is only appended to is a collection (lemma foldl_append in lemmas/Rules.lean:
         # foldl (fun acc x => acc ++ g x) init xs = init ++ xs.flatMap g): the same abstraction as the
         # comprehension that builds the list in one expression
@@ -1476,7 +1483,12 @@ class Interp:
         return self.to_term(tuple(self.eval_elts(e.elts, frame)))
 
     def ex_List(self, e, frame):
-        return self.to_term(list(self.eval_elts(e.elts, frame)))
+        elts = self.eval_elts(e.elts, frame)
+        t = self.to_term(list(elts))
+        if elts and all(S.is_term(x) for x in elts):
+            # a list display of JSON values is a JSON value (the hereditary flag is uninterpreted)
+            self.assume(z3.Implies(z3.And(*[S.json_value(x) for x in elts]), S.isjson(t)))
+        return t
 
     def eval_elts(self, elts, frame):
         from . import lib
